@@ -507,3 +507,11 @@ def close_is_reported_exactly_once(b):
     "closed_once": lambda res: res is True and len(closed_calls(b)) == (0 if closed0 else 2)
                    and all([c is w for c in closed_calls(b)]),
   })
+
+
+# ---------------------------------------------------------------- "reported closed exactly once" after a fatal send error
+# Connection.send disconnects with the event deferred; the announcement comes from the later close().  That step is
+# the C09 unit below, re-discharged here because C20 states it for the send path.
+import contracts.c09_lifecycle as _L
+unit(P, target=OF + "Connection.disconnect(defer_event=True) / Connection.close",
+     name="a_fatal_send_error_is_reported_closed_exactly_once")(_L.deferred_down_is_raised_by_the_later_close)
